@@ -50,6 +50,9 @@ fn copy_atomic(src: &Path, dst: &Path) -> std::io::Result<()> {
     tmp.push(".copia-tmp");
     let tmp = PathBuf::from(tmp);
     std::fs::copy(src, &tmp)?;
+    // Flush the staged bytes before publishing them: neither the rename nor the
+    // archive record written later may reach stable storage ahead of the data.
+    std::fs::File::open(&tmp)?.sync_all()?;
     std::fs::rename(&tmp, dst)
 }
 
